@@ -53,12 +53,14 @@ func cmdDev(args []string) {
 	only := fs.String("kind", "", "only obligations of this kind")
 	nosolve := fs.Bool("nosolve", false, "generate only")
 	refineOnly := fs.Bool("refine", false, "verify implementing methods against their interface contracts")
+	variant := fs.String("variant", "", "contract variant in force")
 	fs.Parse(args)
 	p, w, err := loadAll(*repo)
 	if err != nil {
 		fmt.Println(err)
 		os.Exit(2)
 	}
+	w.ActiveVariant = *variant
 	if len(w.Orphans) > 0 {
 		fmt.Println("CONTRACT-ORPHAN:", strings.Join(w.Orphans, "; "))
 	}
